@@ -38,8 +38,8 @@ use crate::{
 };
 
 pub const SUB: &str = "h2paths";
-pub const QUICK: u64 = 400;
-pub const THOROUGH: u64 = 4000;
+pub const QUICK: u64 = 1600;
+pub const THOROUGH: u64 = 120_000;
 
 pub const PATHS: [&str; 3] = ["h1->h2c", "h2->h1", "h2->h2c"];
 
